@@ -38,8 +38,8 @@ import (
 //           private key does not belong to the certified public key) — all run the real Machine with their credential —
 //           and the adversary M, implemented on flynn/noise directly (own static key, free choice of the transmitted
 //           static key and of the payload: own certificate, someone else's handshake certificate bytes, someone else's
-//           complete certificate with the key embedded, wrong version tags). A *cast* (multiset of <= 4 machines, the
-//           initiators already started) is the root of one search; events are: deliver any pool message to any machine
+//           complete certificate with the key embedded, wrong version tags). A *cast* (multiset of 2..6 machines = up to
+//           three concurrent sessions, the initiators already started) is the root of one search; events are: deliver any pool message to any machine
 //           (reorder, replay, cross-session), deliver a structural mutant (header fields, truncation at region
 //           boundaries, one bit per region, region splices of two pool messages) and M's crafted stage-1 / stage-2
 //           messages. Starting a machine commutes with every other event (it reads nothing another event writes), so
@@ -741,10 +741,8 @@ func (s *c05Sim) judgeResult(mm *c05Mach, pkt, out []byte, res *handshake.Result
 	var proven []byte   // static public key the peer demonstrably holds the private key for (nil: nobody proved anything)
 	var onWire []byte   // static public key transmitted in the consumed message
 	var honest *c05Mach // honest machine that produced exactly the consumed bytes
-	e, sOff, pOff := header.Len, header.Len+s.w.d, 0
-	_ = e
 	if !mm.init {
-		_, sOff, pOff = c05Regions(1, s.w.d, len(pkt))
+		_, sOff, pOff := c05Regions(1, s.w.d, len(pkt))
 		if len(pkt) >= pOff {
 			onWire = pkt[sOff:pOff]
 		}
@@ -796,7 +794,7 @@ func (s *c05Sim) judgeResult(mm *c05Mach, pkt, out []byte, res *handshake.Result
 		}
 	}
 	// (4) key <-> certificate: the holder of the key is reported with its own certificate, never with someone else's
-	if holder := s.w.byPub[string(rc.PublicKey())]; holder == nil || !bytes.Equal(holder.full, mustMarshal(rc)) {
+	if holder := s.w.byPub[string(rc.PublicKey())]; holder == nil || !bytes.Equal(holder.full, c05MustMarshal(rc)) {
 		s.violation("Machine ("+role+") reports a certificate that is not the certificate issued for that key", map[string]any{"certificate_of": c05IdName(id)})
 	}
 	// (5) both sides of the same bytes report each other; the keys are shared with the authenticated peer only
@@ -814,7 +812,7 @@ func (s *c05Sim) judgeResult(mm *c05Mach, pkt, out []byte, res *handshake.Result
 		}
 		s.tl.inc("pairing verified: initiator with M")
 	}
-	if mm.init && honest != nil && honest.res != nil {
+	if mm.init && honest != nil && honest.res != nil && honest.res.RemoteCert != nil {
 		rid, _ := s.w.trustRule(honest.res.RemoteCert.Certificate, s.now, s.tr)
 		if id != honest.id || rid != mm.id {
 			s.violation("two sides completed on the same bytes but do not report each other's certificates", map[string]any{
@@ -838,7 +836,7 @@ func (s *c05Sim) judgeResult(mm *c05Mach, pkt, out []byte, res *handshake.Result
 	s.tl.inc("completed: " + role + " " + c05Class(mm.id.name) + " with " + c05Class(c05IdName(id)))
 }
 
-func mustMarshal(c cert.Certificate) []byte {
+func c05MustMarshal(c cert.Certificate) []byte {
 	b, _ := c.Marshal()
 	return b
 }
@@ -1617,7 +1615,7 @@ func (n *c05Net) judge(e c05NEv, toNode string, pkt []byte, peer *c05Peer) (crea
 						"node": nn, "entry": ent.desc, "sender": prodName})
 				}
 			}
-			if holder := n.w.byPub[string(rc.PublicKey())]; holder == nil || !bytes.Equal(holder.full, mustMarshal(rc)) {
+			if holder := n.w.byPub[string(rc.PublicKey())]; holder == nil || !bytes.Equal(holder.full, c05MustMarshal(rc)) {
 				n.violation("HandshakeManager: hostmap entry reports a certificate that is not the certificate issued for that key", map[string]any{"node": nn, "entry": ent.desc})
 			}
 			// (c) the tunnel keys are shared with the authenticated peer
@@ -1659,6 +1657,9 @@ func (n *c05Net) pairing(nn string, nd *vnode, hi *HostInfo, id *c05Ident, pkt [
 					n.violation("HandshakeManager: the honest stub initiator cannot complete on the node's stage 2", map[string]any{"node": nn, "stub": peer.name, "error": fmt.Sprint(err)})
 				}
 				return
+			}
+			if res.RemoteCert == nil {
+				return // the stub runs the (possibly broken) Machine as well; its own completion is judged in part 1
 			}
 			if vid, _ := n.w.trustRule(res.RemoteCert.Certificate, vtime.Now(), c05Trust{}); vid == nil || vid.name != nn {
 				n.violation("two sides completed on the same bytes but do not report each other's certificates", map[string]any{"node": nn, "stub": peer.name, "stub_reports": c05IdName(vid)})
@@ -1946,6 +1947,7 @@ func TestVerifC05(t *testing.T) {
 	// ---- evidence
 	c.Set("machine_casts", len(jobs))
 	c.Set("machine_casts_searched_to_closure", castsDone)
+	c.Set("machine_level_closed", castsDone == len(jobs) && !capped) // part 1 is exhaustive within its box; part 2 is depth-bounded
 	c.Set("machine_closure_depth", closureDepth)
 	c.Set("machine_depth1_mutants", depth1)
 	c.Set("histories_executed", st.histories.Load())
